@@ -27,20 +27,18 @@ def main():
             na.append(dict(property_id=pid, reason=NOT_BUILT.get(pid, "model, theorems and correspondence for this property are not built yet; no other technique is substituted")))
             continue
         mod = importlib.import_module("props." + pid.lower())
-        import re
-        partial, stated = [], []
-        for m in mod.MODULES:
-            f = os.path.join(VERIF, "lean", m.replace(".", "/") + ".lean")
-            if os.path.exists(f):
-                src = re.sub(r"/-.*?-/", "", open(f).read(), flags=re.S)
-                src = re.sub(r"--.*", "", src)
-                partial += re.findall(r"^\s*theorem\s+(%s_\w*_partial\w*)" % pid, src, re.M)
-                stated += re.findall(r"^\s*def\s+(%s_\w*statement\w*)" % pid, src, re.M)
+        import leaninfo
+        li = leaninfo.info(pid, mod.MODULES)
         pnote = ""
-        if partial or stated:
-            pnote = (" PARTIAL: the full statements kept visible as %s are not proved in full; proved with extra hypotheses (named, "
-                     "complement of a recorded finding or an unfinished induction): %s - the clauses not proved are covered on every run by "
-                     "the correspondence and the oracle only." % (", ".join(stated) or "-", ", ".join(partial) or "-"))
+        if li["partial"] or li["refuted"] or li["open"]:
+            pnote = " PARTIAL:"
+            if li["refuted"]:
+                pnote += (" the full statements %s are FALSE of the code as it is (recorded known findings; each is refuted by a witness theorem) and are proved "
+                          "under the complement of the findings' footprints;" % ", ".join(li["refuted"]))
+            if li["open"]:
+                pnote += " the statements %s are kept visible but not proved (covered on every run by the correspondence and the oracle only);" % ", ".join(li["open"])
+            if li["partial"]:
+                pnote += " theorems carrying an extra named hypothesis: %s." % ", ".join(li["partial"])
         checks.append({
             "property_id": pid,
             "quick_cmd": "%s harness/run.py %s --tier quick" % (PY, pid),
